@@ -156,6 +156,16 @@ def bits_of(t, width=None):
             aty = ty_of(a)
             fill = 0 if (aty and aty.get("k") == "uint") else (0 if ba[-1] == 0 else TOP)
             return ba[n:] + [fill] * n
+    if t.op == "call" and isinstance(t.args[0], str) and t.args[0].startswith("core::num::<impl u") and t.args[0].endswith(("::from_be_bytes", "::from_le_bytes")):
+        arr = t.args[1][0] if t.args[1] else None
+        if arr is not None and arr.op == "array":
+            bytes_ = list(arr.args[0])
+            if t.args[0].endswith("from_be_bytes"):
+                bytes_ = bytes_[::-1]
+            out = []
+            for bt in bytes_:      # least significant byte first
+                out.extend(bits_of(bt, 8))
+            return (out + [0] * w)[:w]
     ty = ty_of(t)
     if ty and ty.get("k") in ("uint", "int") and ty["bits"] <= w:
         return [(t, i) for i in range(ty["bits"])] + [0 if ty["k"] == "uint" else TOP] * (w - ty["bits"])
